@@ -811,6 +811,9 @@ func (e *Engine) siteAsserts(f *Frame, st *State, kind string, l *Loc, v Val, po
 		name = "elem"
 	} else if l.Kind == LCell {
 		name = l.Cell.Comment
+	} else if e.storeAllocName != "" && len(l.Path) == 0 {
+		// a local variable that lives in a heap cell (captured by a closure): the variable's name
+		name = e.storeAllocName
 	}
 	if l.Kind == LElem && l.Note == "" {
 		name = "elem"
